@@ -8,7 +8,7 @@
         <outcome> ::= ok <val> | fuel | stuck <why>
         <event>  ::= <fn>(<val>,<val>…)
         <val>    ::= <int> | true | false | u | s<hex> | none | some:<int> | [<int>;…]
-                   | acc:<int> | rej:<int> | rec[..] | enm<k>[..]
+                   | acc:<int> | rej:<int> | rec[..] | enm<k>[..] | T<int>   (a value of the host type `Tok`)
     c08 mir <hex sexp>   →  <fn 0> || <fn 1> || … (main last), each  ok <tmp_idx> | <block 0> | <block 1> …   or   outside
         the structured lowering model (`RotoV.LowerS.lowerBlock` of main's body, then `return`)
         laid out as a CFG: instructions `a <var> = <value>`, `r <var>`, `j <block>`,
@@ -209,6 +209,7 @@ def showVal : Val → String
   | .list xs => showInts xs
   | .verdict true v => "acc:" ++ toString v
   | .verdict false v => "rej:" ++ toString v
+  | .tok v => "T" ++ toString v
 
 def showEvent (e : Event) : String :=
   toString e.fn ++ "(" ++ ",".intercalate (e.args.map showVal) ++ ")"
@@ -270,7 +271,7 @@ def opName : BinOp → String
   | .lt => "Lt" | .le => "Le" | .gt => "Gt" | .ge => "Ge"
 
 def hostName (f : Nat) : String :=
-  (["emit", "emit_b", "emit_u", "emit_s", "emit_o", "mix", "emit3", "emit_l"][f]?).getD s!"host{f}"
+  (["emit", "emit_b", "emit_u", "emit_s", "emit_o", "mix", "emit3", "emit_l", "tok", "to_string", "peek"][f]?).getD s!"host{f}"
 
 def showLit : Val → String
   | .int v => s!"int:{v}"
